@@ -172,6 +172,16 @@ Theorem C01_finish_saved_ip_refuted :
 Proof. exact stop_saved_ip_is_trampoline_refuted. Qed.
 Print Assumptions C01_finish_saved_ip_refuted.
 
+(* --estimate-return: the model of the entry hooks in this mode (mcount_rstack_inject_return + push, no
+   hijack, no exit hook) never writes a return-address slot: EVERY call tree - any hooks, any triggers -
+   returns natively from any state of the shadow stack *)
+Theorem C01_estimate_return_is_native : forall c d s,
+  exists s' outs, run_ops_est s (full d c) = (s', outs) /\
+                  targets outs = map Some (native c) /\
+                  (forall l, (l < d)%nat -> mem s' l = mem s l).
+Proof. exact estimate_return_is_native. Qed.
+Print Assumptions C01_estimate_return_is_native.
+
 (* ---- (iii) errno ---- *)
 Theorem C01_errno_preserved : forall (A : Type) (inner : Z -> A * Z) (e : Z),
   snd (with_saved_errno inner e) = e /\ fst (with_saved_errno inner e) = fst (inner e).
